@@ -93,6 +93,13 @@ def stepST (toks : List String) : Option String :=
       let r := Consistent2D.makeConsistent fa
       pure (if r.isEmpty then "_" else ";".intercalate (r.map fun e => s!"{showRng e.1}@{showRngs e.2}"))
     | none => pure "not-flat"
+  | ["st_regroup", a] => do
+    let a ← parseST a
+    match toFlat a with
+    | some fa =>
+      let r := Merge2D.regroup fa
+      pure (if r.isEmpty then "_" else ";".intercalate (r.map fun e => s!"{showRngs e.1}@{showRngs e.2}"))
+    | none => pure "not-flat"
   | ["st_tfold_r", tm, a] => do
     let tm ← parseRngs tm; let a ← parseST a
     match toFlat a with
